@@ -237,6 +237,12 @@ def cmpop(op, a, b):
             return a is b
         if op in ('!=', 'is not'):
             return a is not b
+    for x, y, flip in ((a, b, False), (b, a, True)):
+        if isinstance(y, float) and math.isinf(y) and is_sym(x):
+            # A-REAL: every term is a finite real, so it is strictly below +inf / above -inf
+            pos = y > 0
+            o = {'<': '>', '<=': '>=', '>': '<', '>=': '<='}.get(op, op) if flip else op
+            return {'<': pos, '<=': pos, '>': not pos, '>=': not pos, '==': False, '!=': True}[o]
     if isinstance(a, str) or isinstance(b, str):
         if is_sym(a) or is_sym(b):
             raise Unsupported('string vs term comparison')
